@@ -5,6 +5,7 @@ use std::process::exit;
 mod ops;
 mod gen_ops;
 mod arena;
+mod visit;
 
 fn main() {
     let args: Vec<String> = std::env::args().collect();
@@ -18,6 +19,9 @@ fn main() {
         "wasm-roundtrip" => ops::wasm_roundtrip(&args[2]),
         "cf" => ops::cf_roundtrip(&args[2..]),
         "arena" => arena::arena(&args[2..]),
+        "visit" => visit::visit(&args[2..]),
+        "visit-hex" => visit::visit_hex(&args[2]),
+        "visit-cf" => visit::visit_cf(&args[2..]),
         other => {
             eprintln!("unknown subcommand {other}");
             exit(2)
